@@ -206,8 +206,51 @@ Proof.
   intros Hs Hres Hk Hl. cbn [step] in Hs. unfold step_recv_go_away in Hs.
   destruct (c_send_max st <? last); [use_res1 Hs; discriminate|]. use_res1 Hs. cbn zeta.
   eexists. split.
-  - unfold kget. cbn [c_slab with_conn_error with_slab].
-    rewrite (map_linked_get (with_send_max st last) _ k r Hk). change (is_linked (with_send_max st last) k) with (is_linked st k).
-    rewrite Hl. reflexivity.
+  - unfold kget. cbn [c_slab with_conn_error with_slab with_send_max].
+    pose proof (map_linked_get st (fun _ r0 => if (last <? s_id r0) && is_local_init (c_role st) (s_id r0)
+                                               then fail_rec (EGoAway debug code Remote) r0 else r0) k r Hk) as Hm.
+    unfold map_linked in *. cbn [c_slab c_ids is_linked with_send_max] in *.
+    change (is_linked (with_send_max st last)) with (is_linked st). rewrite Hm, Hl. reflexivity.
   - split; [|reflexivity]. destruct ((last <? s_id r) && _); cbn; auto.
 Qed.
+
+(* composed with the state machine (Proofs/StreamStateProofs.v recv_reset_surfaces): the peer's RST_STREAM(code) on a
+   stream that was not closed reaches every handle of it with exactly that code: poll_reset (both flavours) reports
+   Ok(Some(code)), a read reports Err(Reset(sid, code, Remote)) unless the peer's message was already complete *)
+Theorem peer_reset_surfaces_exact st sid code o st' outs k r :
+  iget st sid = Some (k, r) -> step st (LRecvReset sid code o) = Ok st' outs -> result_of outs = ROk ->
+  is_closed (s_state r) = false \/ r_queued o = true ->
+  (forall m, step st' (LPollReset k m) = Ok st' [OSurface (s_id r) (RReason (Some code))]) /\
+  (is_recv_end_stream (s_state r) = false ->
+   step st' (LPollRecv k) = Ok st' [OSurface (s_id r) (RProtoErr (EReset sid code Remote))]) /\
+  (is_recv_end_stream (s_state r) = true ->
+   step st' (LPollRecv k) = Ok st' [OSurface (s_id r) (RBool false)]).
+Proof.
+  intros Hi Hs Hres Hc.
+  destruct (peer_reset_reaches_handles st sid code o st' outs k r Hi Hs Hres) as (_ & _ & Hp & Hm).
+  destruct (recv_reset_surfaces sid code (r_queued o) (s_state r) Hc) as ((Ha & Hb) & _ & _ & _ & Hn & He).
+  split; [|split].
+  - intros m. rewrite Hm. destruct m; [rewrite Ha|rewrite Hb]; reflexivity.
+  - intros H. rewrite Hp. destruct (Hn H) as (_ & ->). reflexivity.
+  - intros H. rewrite Hp. destruct (He H) as (_ & -> & _). reflexivity.
+Qed.
+
+(* non-vacuity *)
+Example ex_explicit_reset_after_headers :
+  let st := mkC Client true true [(1, mkS 1 (Open Streaming AwaitingHeaders) true false false [QHeaders false false] None)]
+                [(1, 1)] (Some 3) (Some 2) MAX_ID MAX_ID None None in
+  match step st (LSendReset 1 4294967295 true) with
+  | Ok st' outs => queued_all outs = [(1, QReset 4294967295)] /\
+                   match kget st' 1 with Some r' => s_q r' = [QHeaders false false; QReset 4294967295] | None => False end
+  | _ => False
+  end.
+Proof. vm_compute. auto. Qed.
+
+Example ex_peer_reset_any_code :
+  let st := mkC Client true true [(1, mkS 1 (HalfClosedLocal Streaming) false false false [] None)]
+                [(1, 1)] (Some 3) (Some 2) MAX_ID MAX_ID None None in
+  match step st (LRecvReset 1 3735928559 (mkR false true)) with
+  | Ok st' outs => step st' (LPollRecv 1) = Ok st' [OSurface 1 (RProtoErr (EReset 1 3735928559 Remote))]
+  | _ => False
+  end.
+Proof. vm_compute. auto. Qed.
